@@ -82,6 +82,19 @@ func runC13(c *rt.Ctx) {
 	c2, p2 := poolCommands(2)
 	prep01 := append(append([]wire.Op{}, p0...), p1...)
 	prep012 := append(append([]wire.Op{}, prep01...), p2...)
+	// a long outage: the backend refuses enough dials in a row for the reconnect back-off to reach
+	// its cap (and stay there for a few more attempts) before it accepts again
+	for _, ps := range []int{1, 2} {
+		for i, a := range c0 {
+			if i%3 != 0 && !c.Thorough() {
+				continue
+			}
+			item++
+			if c.Mine(item) && !c.Expired() {
+				run(PoolScenario{Harness: "C13", BatchSize: 1, PoolSize: ps, Prep: p0, Callers: []wire.Op{a}, MaxCuts: 1, Refusals: 14, Late: true})
+			}
+		}
+	}
 	for _, refusals := range []int{0, 2} {
 		for _, ps := range []int{1, 2} {
 			// one caller: every command variant, cut at every position
